@@ -6,7 +6,8 @@ from . import hist
 class C04(HistProp):
     id = 'C04'
     module = 'Cbor.Props.C04'
-    theorems = ['Props.C04.C04_step', 'Props.C04.C04_run', 'Props.C04.C04_run_from_init', 'Props.C04.C04_no_dangling', 'Props.C04.C04_all_released', 'Props.C04.C04_pos_run', 'Props.C04.C04_nothing_left',
+    extra_modules = ['Cbor.Lemmas.Acyclic']
+    theorems = ['Props.C04.C04_nothing_left\'', 'Props.C04.C04_acyclic_run', 'Props.C04.C04_acyclic_run_from_init', 'Heap.acyclic_step', 'Props.C04.C04_step', 'Props.C04.C04_run', 'Props.C04.C04_run_from_init', 'Props.C04.C04_no_dangling', 'Props.C04.C04_all_released', 'Props.C04.C04_pos_run', 'Props.C04.C04_nothing_left',
                 'Heap.decref_counts', 'Heap.copy_counts_all', 'Heap.load_counts', 'Heap.arrReplace_counts', 'Heap.mapAdd_counts', 'Heap.tagSet_counts']
     trusted_base = BASE_TRUST + HEAP_TRUST + [
         'C04_run covers every operation of the history language incl. cbor_copy (all clean-up paths, any allocator oracle) and cbor_load (tree laid out by Heap.build); '
